@@ -15,7 +15,8 @@ Positions == {"first", "middle", "last"}
 Caps == {0, 1, 3, 4, 64}
 Fills == {"zero", "ff", "random"}
 
-Setters == {"username", "realm", "nonce", "software", "reason", "xorip", "mappedip", "errorcode", "integrity"}
+Setters == {"username", "realm", "nonce", "software", "reason", "xorip", "mappedip", "altserver", "origin", "other",
+            "errorcode", "integrity"}
 Contexts == {"empty", "one", "three", "fp", "fp-then-attr"}
 
 \* C08: a "use" of a Message - how it is filled (decode family or build family), with how many attributes
